@@ -116,7 +116,7 @@ impl<E: El, I: Item<E>> Chain<E, I> {
         let mut segs: Vec<SegR<E>> = Vec::new();
         let mut stages: Vec<StageR> = Vec::new();
         let mut cur_seg: Vec<usize> = Vec::new();
-        let tap = |g: usize, s: BoxS<I>| -> BoxS<I> { Box::pin(Tap { inner: s, stage: g, log: log.clone() }) };
+        let tap = |g: usize, s: BoxS<I>| -> BoxS<I> { Box::pin(Tap { inner: s, stage: g, log: log.clone(), ended: false }) };
         let mut cur: Built<E, I> = Built::Pair(values, tap(0, stream));
         for (k, kind) in cfg.stages.iter().copied().enumerate().take(n) {
             let (built, ctl) = match cur {
@@ -215,7 +215,7 @@ impl<E: El, I: Item<E>> Chain<E, I> {
             }
             st.mark("stacked_on_a_polled_adapter");
             let g = self.segs.len();
-            let tapped: BoxS<I> = Box::pin(Tap { inner: s, stage: g, log: log.clone() });
+            let tapped: BoxS<I> = Box::pin(Tap { inner: s, stage: g, log: log.clone(), ended: false });
             build_on_pair(v, tapped, kind, k, cfg.obs_init, &log, false)
         };
         let (lim, src) = match kind.lim() {
@@ -477,6 +477,21 @@ impl<E: El, I: Item<E>> Chain<E, I> {
                 Ok(())
             }
             Evt::LimEnd(_) | Evt::LimPending(_) => Ok(()),
+            Evt::LimPolledAfterEnd(k) => Err(viol(
+                self.stages[k].kind.prop(),
+                cx.step,
+                format!("limit-stream-polled-after-end/{}", self.stages[k].kind.name()),
+                "the adapter polled its limit/count stream again after that stream had returned Ready(None); a stream that is not fused may panic or block then".to_string(),
+            )),
+            Evt::SrcPolledAfterEnd(g) => {
+                let k = *self.segs[g].stages.first().unwrap();
+                Err(viol(
+                    self.stages[k].kind.prop(),
+                    cx.step,
+                    format!("input-stream-polled-after-end/{}", self.stages[k].kind.name()),
+                    "the adapter polled its input stream again after that stream had returned Ready(None)".to_string(),
+                ))
+            }
         }
     }
 
@@ -643,9 +658,18 @@ impl<E: El, I: Item<E>> World<E, I> {
     fn new(cfg: &Cfg) -> Self {
         let mut ob = ObservableVector::<E>::with_capacity(cfg.capacity);
         let mut next_id = 0u16;
-        let vec: Vec<Kid> = cfg.init.iter().map(|k| fresh(&mut next_id, *k)).collect();
+        let mut vec: Vec<Kid> = cfg.init.iter().map(|k| fresh(&mut next_id, *k)).collect();
+        for _ in 0..cfg.init_run {
+            vec.push(fresh(&mut next_id, 0));
+        }
         if !vec.is_empty() {
             ob.append(mk_elems(&vec));
+        }
+        for _ in 0..cfg.pre_pop_front {
+            ob.pop_front();
+            if !vec.is_empty() {
+                vec.remove(0);
+            }
         }
         let main = Chain::<E, I>::build(cfg, &ob);
         let twin = if cfg.twin { Some(Chain::<E, VectorDiff<E>>::build(cfg, &ob)) } else { None };
